@@ -197,6 +197,17 @@ def case(ctx, rnd, i):
             else:
                 fn = lambda tr: tr.delete_range(f, t)  # noqa: E731
             tr = Transform(d)
+            inner_calls = []
+            if op in ("replace_range", "replace_range_with"):
+                # observe where replace_range's preferred-depth / range-expansion search sends the
+                # inner replace (a listed mechanism of C18: it must stop at isolating ancestors)
+                real_replace = tr.replace
+
+                def spy(from_, to=None, slice=None, _real=real_replace, _log=inner_calls):
+                    _log.append((from_, from_ if to is None else to))
+                    return _real(from_, to, slice)
+
+                tr.replace = spy
             ctx.count("ops_inside")
             ctx.ev()
             if op in ("delete", "delete_range"):
@@ -215,6 +226,7 @@ def case(ctx, rnd, i):
             preserved = all(any(x == y for y in it) for x in outside_old)
             mech = {"op": op, "schema": sch.id, "iso_type": ntype, "delete_family": op in ("delete", "delete_range"),
                     "has_payload": bool(ptypes),
+                    "inner_replace_range_outside_isolating_node": any(x < a + 1 or y > b for x, y in inner_calls),
                     "old_outside_tokens_preserved_in_order": preserved,
                     "payload_fits_directly_only_outside": placement_facts(rs, p, leaf, f, depthN, ptypes) if ptypes else False}
             det = {**base, "op": op, "args": args, "isolating_node": {"type": ntype, "open": a, "close": b}}
